@@ -189,3 +189,18 @@ package layout
 //@     invariant blocksum(valid, len(valid)) == blocksum(blocks, $i)
 //@   loop 1:
 //@     invariant blocksum(valid, len(valid)) == entry(blocksum(valid, len(valid))) && len(valid) == entry(len(valid))
+
+// ---- C09: paragraph detection puts every line into exactly one paragraph ----
+//@ spec rec prefix func parasum(ps []Paragraph, n int) int = n <= 0 ? 0 : parasum(ps, n - 1) + linesum(ps[n-1].Lines, len(ps[n-1].Lines))
+
+//@ func (*ParagraphDetector) buildParagraph results (res)
+//@   property C09
+//@   flags nosafety
+//@   ensures holds_exactly_its_lines: linesum(res.Lines, len(res.Lines)) == linesum(lines, len(lines))
+
+//@ func (*ParagraphDetector) groupIntoParagraphs results (res)
+//@   property C09
+//@   flags nosafety
+//@   ensures conserved: parasum(res, len(res)) == linesum(lines, len(lines))
+//@   loop 0:
+//@     invariant parasum(paragraphs, len(paragraphs)) + linesum(currentLines, len(currentLines)) == linesum(lines, $i)
